@@ -14,6 +14,8 @@ mod pure2;
 mod natural;
 #[cfg(feature = "with_serde")]
 mod serde_probe;
+#[cfg(feature = "with_serde")]
+mod tree_de;
 #[cfg(feature = "std")]
 mod sut;
 
